@@ -115,10 +115,23 @@ def _entity(obj, name, eid, typ=None):
         obj.attrs["type"] = typ
 
 
+def _tokf(t):
+    """a double from its token: num/den (exact), -0, nan, inf, -inf"""
+    if t == "nan":
+        return float("nan")
+    if t == "inf":
+        return float("inf")
+    if t == "-inf":
+        return float("-inf")
+    if t == "-0":
+        return -0.0
+    return float(Fraction(t))
+
+
 def _pyval(v):
     k, x = v
     if k == "f":
-        return float(Fraction(x))
+        return _tokf(x)
     return x
 
 
@@ -127,7 +140,7 @@ def _write_prop(pg, p):
     if p["kind"] == "old":
         dt = np.dtype([("value", vdt), ("uncertainty", "<f8"), ("reference", VSTR), ("filename", VSTR),
                        ("encoder", VSTR), ("checksum", VSTR)])
-        rows = [(_pyval(r[0]), float(Fraction(r[1])), r[2], r[3], r[4], r[5]) for r in p["rows"]]
+        rows = [(_pyval(r[0]), _tokf(r[1]), r[2], r[3], r[4], r[5]) for r in p["rows"]]
         arr = np.array(rows, dtype=dt) if rows else np.zeros((0,), dtype=dt)
         ds = pg.create_dataset(p["name"], data=arr, dtype=dt, chunks=True, maxshape=(None,))
     else:
@@ -139,7 +152,7 @@ def _write_prop(pg, p):
         else:
             ds = pg.create_dataset(p["name"], data=np.array(vals, dtype=vdt), chunks=True, maxshape=(None,))
         if p.get("uncertainty") is not None:
-            ds.attrs["uncertainty"] = float(Fraction(p["uncertainty"]))
+            ds.attrs["uncertainty"] = _tokf(p["uncertainty"])
     _entity(ds, p["name"], p["id"])
     for a in ("definition", "unit"):
         if p.get(a) is not None:
@@ -248,8 +261,19 @@ def _txt(x):
 
 
 def _fr(x):
-    f = Fraction(float(x))
+    """token of a double: exact num/den (both zeros 0/1), nan, inf, -inf"""
+    x = float(x)
+    if x != x:
+        return "nan"
+    if x in (float("inf"), float("-inf")):
+        return "inf" if x > 0 else "-inf"
+    f = Fraction(x)
     return "%d/%d" % (f.numerator, f.denominator)
+
+
+def _ctok(t):
+    """canonical token (what `_fr` gives for the double the token denotes)"""
+    return _fr(_tokf(t))
 
 
 def _val(x):
@@ -642,44 +666,172 @@ def _fs(x):
     return "%d/%d" % (x.numerator, x.denominator)
 
 
+F_SPECIAL64 = ["nan", "inf", "-inf", "-0", _fs(Fraction(1e-9)), _fs(Fraction(0.1)), _fs(Fraction(1.7976931348623157e308)),
+               _fs(Fraction(5e-324)), _fs(Fraction(100.0005)), _fs(Fraction(-1e15) - Fraction(1, 4))]
+F_SPECIAL32 = ["nan", "inf", "-inf", "-0", _fs(Fraction(2) ** -126), _fs(Fraction(16777215, 1))]
+I_SPECIAL = {"int64": [2 ** 63 - 1, -2 ** 63, 2 ** 53 + 1], "int32": [2 ** 31 - 1, -2 ** 31], "uint8": [0, 255]}
+
+
 def _gen_value(rng, dtype):
     if dtype == "str":
-        return ["s", rng.choice(["", "a", "bb", "x y", "ü", "0", "long text " * 3])]
+        return ["s", rng.choice(["", "a", "bb", "x y", "ü", "0", "long text " * 3, " ", "nan"])]
     if dtype == "bool":
         return ["b", rng.random() < 0.5]
-    if dtype in ("int64", "int32"):
-        return ["i", rng.randint(-1000, 1000)]
-    if dtype == "uint8":
-        return ["i", rng.randint(0, 255)]
+    if dtype in I_SPECIAL:
+        if rng.random() < 0.12:
+            return ["i", rng.choice(I_SPECIAL[dtype])]
+        return ["i", rng.randint(0, 255) if dtype == "uint8" else rng.randint(-1000, 1000)]
+    if rng.random() < 0.15:
+        return ["f", rng.choice(F_SPECIAL32 if dtype == "float32" else F_SPECIAL64)]
     return ["f", _fs(_dyadic(rng))]
 
 
-def _gen_prop(rng, name, kind):
-    dtype = rng.choice(["int64", "int64", "float64", "str", "str", "bool", "int32", "uint8", "float32"])
-    n = rng.choice([0, 1, 1, 1, 2, 3, 5])
+UNC_MODES = ["zero", "zero", "same", "many", "negzero", "close_rel", "close_rel", "close_abs", "close_ulp", "nan",
+             "inf", "one_nonzero", "last_differs"]
+TEXT_MODES = ["none"] * 8 + ["same", "first", "last", "random", "falsy_looking"]
+TEXTS = ["r", "ref", "ä", "0", " ", "False", "None", "nan", "[]", "a/b.c", "x" * 40]
+
+
+def _double(rng):
+    """a double that is not on the dyadic grid"""
+    return rng.choice([1, -1, 1, 1]) * rng.choice([0.1, 0.3, 2.5e-3, 100.0, 12345.678, 1e6 / 3, 7e-9, 1e-12, 3e12]) \
+        * rng.choice([1, 3, 7, 0.37])
+
+
+def _close(rng, b):
+    """a double different from `b` and close to it: relative 1e-6 .. 1e-9, a few ulps, or (tiny values) absolute"""
+    for _ in range(20):
+        how = rng.choice(["rel", "rel", "ulp", "p2"])
+        if how == "rel":
+            c = b * (1 + rng.choice([1, -1]) * rng.choice([1e-6, 5e-6, 1e-7, 1e-8, 1e-9]) * rng.choice([1, 2, 0.5]))
+        elif how == "ulp":
+            c = float(np.nextafter(b, rng.choice([np.inf, -np.inf])))
+            if rng.random() < 0.5:
+                c = float(np.nextafter(c, rng.choice([np.inf, -np.inf])))
+        else:
+            c = b * (1 + 2.0 ** -rng.choice([20, 24, 30, 40]))
+        if c != b and c == c:
+            return c
+    return b * 2 + 1
+
+
+def gen_uncs(rng, n, mode=None):
+    """per-value uncertainties (tokens) of an old property with `n` values"""
+    mode = mode or rng.choice(UNC_MODES)
+    if n == 0:
+        return mode, []
+    if mode == "zero":
+        us = [0.0] * n
+    elif mode == "negzero":
+        us = [rng.choice([0.0, -0.0]) for _ in range(n)]
+        us[rng.randrange(n)] = -0.0
+    elif mode == "same":
+        v = rng.choice([float(_dyadic(rng)) or 0.5, _double(rng)])
+        us = [v] * n
+    elif mode == "many":
+        us = [float(_dyadic(rng)) if rng.random() < 0.7 else _double(rng) for _ in range(n)]
+    elif mode == "close_rel":
+        b = rng.choice([abs(float(_dyadic(rng))) or 1.0, abs(_double(rng)), 100.0, 1.0])
+        us = [b] + [_close(rng, b) for _ in range(n - 1)]
+        if rng.random() < 0.3:
+            rng.shuffle(us)
+    elif mode == "close_abs":
+        sc = rng.choice([1e-9, 1e-9, 1e-10, 1e-12, 1e-15])
+        us = [sc * rng.choice([1, 2, 3, 5, 7, 9, 2.5]) * rng.choice([1, 1, 1, -1]) for _ in range(n)]
+        if rng.random() < 0.3:
+            us[rng.randrange(n)] = 0.0
+    elif mode == "close_ulp":
+        b = rng.choice([_double(rng), 1.0, 0.5, 1e-300, 4.0])
+        us = [b] * n
+        for i in range(1, n):
+            if rng.random() < 0.6 or i == n - 1:
+                us[i] = float(np.nextafter(b, rng.choice([np.inf, -np.inf])))
+    elif mode == "nan":
+        v = rng.choice([0.0, 0.5, _double(rng)])
+        us = [rng.choice([float("nan"), float("nan"), v]) for _ in range(n)]
+        us[rng.randrange(n)] = float("nan")
+    elif mode == "inf":
+        us = [rng.choice([float("inf"), float("inf"), float("-inf"), 0.0, 1.0]) for _ in range(n)]
+        us[rng.randrange(n)] = float("inf")
+    elif mode == "one_nonzero":
+        us = [0.0] * n
+        us[rng.choice([0, n - 1, rng.randrange(n)])] = rng.choice([0.5, 1e-9, 5e-324, _double(rng)])
+    else:   # last_differs
+        v = rng.choice([0.25, _double(rng), 0.0])
+        us = [v] * n
+        us[-1] = rng.choice([_close(rng, v) if v else 1e-9, v + 1.0])
+    out = []
+    for u in us:
+        out.append("-0" if (u == 0 and np.signbit(u)) else _fr(u))
+    return mode, out
+
+
+def gen_texts(rng, n, mode=None):
+    """one per-value text extra (reference / filename / encoder / checksum) of an old property with `n` values"""
+    mode = mode or rng.choice(TEXT_MODES)
+    if mode == "none" or n == 0:
+        return [""] * n
+    if mode == "same":
+        return [rng.choice(TEXTS)] * n
+    if mode == "first":
+        return [rng.choice(TEXTS)] + [""] * (n - 1)
+    if mode == "last":
+        return [""] * (n - 1) + [rng.choice(TEXTS)]
+    if mode == "falsy_looking":
+        return [rng.choice(["0", " ", "False", "None", "", "\t"]) for _ in range(n)]
+    return [rng.choice(TEXTS + ["", "", "ref%d" % i]) for i in range(n)]
+
+
+PROP_DTYPES = ["int64", "int64", "float64", "float64", "str", "str", "bool", "int32", "uint8", "float32"]
+
+
+def _gen_prop(rng, name, kind, dtype=None, n=None, umode=None, tmodes=None):
+    dtype = dtype or rng.choice(PROP_DTYPES)
+    n = rng.choice([0, 1, 1, 2, 2, 3, 5, 12]) if n is None else n
     p = {"name": name, "kind": kind, "dtype": dtype, "id": _uid(rng),
          "definition": rng.choice(DEFS), "unit": rng.choice(UNITS)}
     if kind == "old":
-        umode = rng.choice(["zero", "zero", "same", "many", "negzero"])
-        tmode = {s: rng.random() < 0.3 for s in SUFFIXES[1:]}
-        rows = []
-        same = _dyadic(rng)
-        for i in range(n):
-            if umode == "zero":
-                u = Fraction(0)
-            elif umode == "same":
-                u = same
-            elif umode == "negzero":
-                u = Fraction(0)
-            else:
-                u = _dyadic(rng)
-            texts = [(rng.choice(["", "r", "ref%d" % i, "ä"]) if tmode[s] else "") for s in SUFFIXES[1:]]
-            rows.append([_gen_value(rng, dtype), _fs(u)] + texts)
-        p["rows"] = rows
+        _, us = gen_uncs(rng, n, umode)
+        cols = [gen_texts(rng, n, (tmodes or {}).get(s)) for s in SUFFIXES[1:]]
+        p["rows"] = [[_gen_value(rng, dtype), us[i]] + [c[i] for c in cols] for i in range(n)]
     else:
         p["values"] = [_gen_value(rng, dtype) for _ in range(n)]
-        p["uncertainty"] = rng.choice([None, None, _fs(_dyadic(rng))])
+        p["uncertainty"] = rng.choice([None, None, _fs(_dyadic(rng)), "nan", _fr(_double(rng))])
     return p
+
+
+def grid_specs(lib):
+    """deterministic coverage of the value-dependent decisions of one property conversion: every value type x
+    (1, 2, many values) x every kind of per-value uncertainties / texts, spread over a few files"""
+    import random
+    rng = random.Random(18)
+    umodes = sorted(set(UNC_MODES))
+    tmodes = sorted(set(TEXT_MODES))
+    dtypes = sorted(set(PROP_DTYPES))
+    specs = []
+    combos = []
+    i = 0
+    for um in umodes:
+        for n in (1, 2, 5):
+            combos.append((dtypes[i % len(dtypes)], n, um, {s: tmodes[(i + j) % len(tmodes)]
+                                                             for j, s in enumerate(SUFFIXES[1:])}))
+            i += 1
+    for dt in dtypes:
+        for n in (1, 2, 5):
+            combos.append((dt, n, umodes[i % len(umodes)], {s: tmodes[(i + 2 * j) % len(tmodes)]
+                                                            for j, s in enumerate(SUFFIXES[1:])}))
+            i += 1
+    per = 12
+    for start in range(0, len(combos), per):
+        secs = []
+        for k, (dt, n, um, tm) in enumerate(combos[start:start + per]):
+            if k % 4 == 0:
+                secs.append({"name": "s%d" % (k // 4), "type": "grid", "id": _uid(rng), "props": [], "sections": []})
+            secs[-1]["props"].append(_gen_prop(rng, "p%d" % k, "old", dtype=dt, n=n, umode=um, tmodes=tm))
+        if len(secs) > 2:
+            secs[0]["sections"].append(secs.pop())
+        specs.append({"version": [1, 1, 0] if start % 2 == 0 else [1, 0, 0], "id": None, "sections": secs, "blocks": []})
+    return specs
 
 
 def _gen_section(rng, used, depth, budget, oldness, collide):
@@ -800,8 +952,8 @@ def has_collision(spec):
 
 def needed_extras(p):
     out = []
-    us = [Fraction(r[1]) for r in p["rows"]]
-    if len(set(us)) > 1:
+    us = [_ctok(r[1]) for r in p["rows"]]
+    if len({u for u in us if u != "nan"}) + sum(1 for u in us if u == "nan") > 1:
         out.append(".uncertainty")
     for i, suf in enumerate(SUFFIXES[1:], 2):
         if any(r[i] != "" for r in p["rows"]):
@@ -1103,12 +1255,13 @@ def expected_content(spec):
         for p in s["props"]:
             if p["kind"] == "old":
                 vals = [r[0] for r in p["rows"]]
-                extras = {"uncertainty": [r[1] for r in p["rows"]]}
+                extras = {"uncertainty": [_ctok(r[1]) for r in p["rows"]]}
                 for i, suf in enumerate(SUFFIXES[1:], 2):
                     extras[suf[1:]] = [r[i] for r in p["rows"]]
             else:
                 vals = p["values"]
                 extras = None
+            vals = [["f", _ctok(v[1])] if v[0] == "f" else v for v in vals]
             props[p["name"]] = {"values": vals, "dtype": p["dtype"], "unit": p.get("unit") or None,
                                 "definition": p.get("definition") or None, "extras": extras}
         secs[here] = {"id": s["id"], "type": s["type"], "props": props, "children": [c["name"] for c in s["sections"]]}
@@ -1217,12 +1370,12 @@ def content_diff(exp, got, after):
                 q = gs["props"].get(pn + ".uncertainty")
                 if q is not None and pn + ".uncertainty" not in es["props"]:
                     allowed.add(pn + ".uncertainty")
-                    gu = [Fraction(v[1]) if v[0] == "f" else None for v in q["values"]]
+                    gu = [v[1] if v[0] == "f" else None for v in q["values"]]
                 else:
-                    gu = [Fraction(gp["uncertainty"] or 0)] * n
-                if gu != [Fraction(u) for u in ep["extras"]["uncertainty"]]:
+                    gu = [gp["uncertainty"] or "0/1"] * n
+                if gu != list(ep["extras"]["uncertainty"]):
                     return "section %s property %r: per-value uncertainties not retrievable: %s, expected %s" % (
-                        sp, pn, [str(x) for x in gu], ep["extras"]["uncertainty"])
+                        sp, pn, [_show(x) for x in gu], [_show(x) for x in ep["extras"]["uncertainty"]])
                 for suf in SUFFIXES[1:]:
                     q = gs["props"].get(pn + suf)
                     if q is not None and pn + suf not in es["props"]:
@@ -1239,8 +1392,12 @@ def content_diff(exp, got, after):
     return None
 
 
-def _strip_ids(walk):
-    return walk
+def _show(t):
+    """a double token for a message: the token and its decimal reading"""
+    try:
+        return "%s (%r)" % (t, _tokf(t))
+    except Exception:
+        return repr(t)
 
 
 def _sha_file(path):
@@ -1394,6 +1551,9 @@ def oracle(ctx, broken, hints):
     for c in core.load_corpus(PROP):
         if isinstance(c, dict) and "spec" in c:
             specs.append((c["spec"], "all"))
+    # the value-dependent decisions of one conversion, deterministically (uninterrupted + two interruption points)
+    for g in grid_specs(lib):
+        specs.append((g, "few"))
     n_tiny, n_small, n_large = (60, 60, 12) if (broken or not ctx.quick()) else (10, 8, 1)
     for _ in range(n_tiny):
         specs.append((gen_spec(rng, lib, "tiny", shape=rng.choice(["old", "old", "mid", "mixed"])), "all"))
@@ -1408,6 +1568,8 @@ def oracle(ctx, broken, hints):
         points = "all"
         if pts == "sample":
             points = sorted(rng.sample(range(40), 6))
+        elif pts == "few":
+            points = sorted(rng.sample(range(14), 2)) if ctx.quick() else sorted(rng.sample(range(14), 6))
         kp = set()
         if not ctx.quick() or i % 4 == 0:
             kp = set(range(40)) if not ctx.quick() else {rng.randrange(6), rng.randrange(12)}
